@@ -44,6 +44,7 @@ def run(ctx, run):
     _capture_null_discipline(ctx, run)
     _release_all_own_device(ctx, run)
     _controls_channel_set(ctx, run)
+    _one_message_per_idle_pass(ctx, run, P.need("vbi_proxyd_handle_client_sockets", UNIT))
     # 'nor stops serving': a mutex taken twice or kept at a return blocks the daemon for everybody (shared with C18)
     from . import C18
     C18.lock_discipline(ctx, run)
@@ -259,6 +260,113 @@ def _strict(ctx, run, take):
                           "req->services[strict - %d] (%d elements, admissible %s): out-of-bounds read-modify-write chosen by the client"
                           % (ex.pretty(take, arg), iv, -off, n, allowed), ex.loc(take, i),
                           witness={"argument": ex.pretty(take, arg), "interval": iv, "admissible": allowed})
+
+
+def _one_message_per_idle_pass(ctx, run, f):
+    """vbi_proxy_msg_write() asserts that no message is being written (writeLen == 0).  Once a client's connection was
+    found idle the daemon queues at most one message for it - a reclaim request, a token indication, a channel change
+    indication or a frame - before it goes on to the next client: no path from the idle test reaches a second write.
+    Path-sensitive exploration of the region behind the idle test; flags (locals that are only assigned literals) which
+    carry the mutual exclusion are followed."""
+    run.touch(f)
+    WRITERS = ("vbi_proxy_msg_write", "vbi_proxyd_send_sliced")
+    n = sum(1 for b, i in flow.all_events(f) if f.exprs[i]["k"] == "call" and f.exprs[i].get("callee") in WRITERS)
+    run.floor("message writes in vbi_proxyd_handle_client_sockets", n, 3)
+    starts = []
+    for bid, b in f.blocks.items():
+        t = b.term
+        if t and "cond" in t and any(f.exprs[m]["k"] == "call" and f.exprs[m].get("callee") == "vbi_proxy_msg_is_idle"
+                                      for m in ex.walk(f, t["cond"])):
+            for s2, lab in f.edges(bid):
+                if any(a.call_cmp("vbi_proxy_msg_is_idle", "!=", 0) for a in atoms.edge_atoms(f, bid, lab)):
+                    starts.append(s2)
+    if not starts:
+        raise AnalysisBroken("vbi_proxyd_handle_client_sockets: the idle test was not found")
+    # the loop variable: first argument of the idle call
+    loopv = None
+    for m, e in enumerate(f.exprs):
+        if e["k"] == "call" and e.get("callee") == "vbi_proxy_msg_is_idle" and e.get("c"):
+            r = ex.root(f, e["c"][0])
+            loopv = f.exprs[r]["name"] if r is not None else None
+
+    def stores_loopv(i):
+        return any(lhs is not None and f.exprs[ex.skip(f, lhs)]["k"] == "ref" and f.exprs[ex.skip(f, lhs)].get("name") == loopv
+                   for lhs, var, op, rhs in flow.stores(f, i))
+    region = set()
+    st = list(starts)
+    while st:
+        b = st.pop()
+        if b in region:
+            continue
+        region.add(b)
+        if any(stores_loopv(i) for i in flow.events(f, b)):
+            continue
+        st.extend(s2 for s2, _ in f.edges(b))
+    lit, other = set(), set()
+    for b in region:
+        for i in flow.events(f, b):
+            for lhs, var, op, rhs in flow.stores(f, i):
+                nm = var["name"] if var is not None else None
+                if nm is None and lhs is not None and f.exprs[ex.skip(f, lhs)]["k"] == "ref" and f.exprs[ex.skip(f, lhs)].get("dk") == "local":
+                    nm = f.exprs[ex.skip(f, lhs)]["name"]
+                if nm is None:
+                    continue
+                (lit if (rhs is not None and op == "=" and ex.const(f, rhs) is not None) else other).add(nm)
+    flags = sorted(lit - other)[:6]
+    second = None
+    seen = set()
+    work = [(s0, 0, frozenset()) for s0 in starts]
+    steps = 0
+    while work and second is None and steps < 200000:
+        steps += 1
+        b, cnt, fv = work.pop()
+        if (b, cnt, fv) in seen or b not in region:
+            continue
+        seen.add((b, cnt, fv))
+        vals = dict(fv)
+        ended = False
+        for i in flow.events(f, b):
+            e = f.exprs[i]
+            if e["k"] == "call" and e.get("callee") in WRITERS:
+                if cnt >= 1:
+                    second = i
+                    break
+                # vbi_proxyd_send_sliced() writes and flushes: when it returns unblocked the message is gone and the
+                # next frame may follow (the forwarding loop); a plain vbi_proxy_msg_write() leaves the message queued
+                if e.get("callee") == "vbi_proxy_msg_write":
+                    cnt = 1
+            if stores_loopv(i):
+                ended = True
+                break
+            for lhs, var, op, rhs in flow.stores(f, i):
+                nm = var["name"] if var is not None else None
+                if nm is None and lhs is not None and f.exprs[ex.skip(f, lhs)]["k"] == "ref":
+                    nm = f.exprs[ex.skip(f, lhs)]["name"]
+                if nm in flags and rhs is not None:
+                    vals[nm] = ex.const(f, rhs)
+        if second is not None or ended:
+            continue
+        t = f.blocks[b].term
+        for s2, lab in f.edges(b):
+            if t and "cond" in t and lab in ("T", "F"):
+                skip_edge = False
+                for nm in flags:
+                    ft = atoms._flag_test(f, t["cond"], nm)
+                    if ft is not None and nm in vals and vals[nm] is not None:
+                        truth = bool(vals[nm]) == ft
+                        if truth != (lab == "T"):
+                            skip_edge = True
+                if skip_edge:
+                    continue
+            work.append((s2, cnt, frozenset(vals.items())))
+    key = "RF-STATE:%s:one-message-per-idle-pass" % f.name
+    if second is not None:
+        run.violation("RF-STATE", key, "a path from the idle test queues a message and then reaches `%s` as well: the second "
+                      "vbi_proxy_msg_write() fails its assertion writeLen == 0 and the daemon aborts - every client is cut off"
+                      % ex.pretty(f, second)[:70], ex.loc(f, second), witness={"function": f.name, "second_write": ex.pretty(f, second)[:80]})
+    else:
+        run.holds("RF-STATE", key, "no path from the idle test queues two messages for one client (%d blocks, flags %s)"
+                  % (len(region), flags), "%s:%d" % (f.file, f.line))
 
 
 def _handle_read(ctx, run, f):
